@@ -218,6 +218,15 @@ Proof.
   - apply names_val_names_group; [apply defs_wf|apply distinct_NoDup; exact Hd|exact Hb].
 Qed.
 
+(* labels given in ascending bit order come back exactly (upper-cased) *)
+Theorem names_val_names_exact g ls bs : known rows aliases g = true -> distinct_labels ls = true ->
+  bits_of (defs rows aliases g) (map upper ls) = Some bs -> StronglySorted Z.lt bs ->
+  match flagval m g ls with RVal v => flagname m g v | r => r end = RNames (map upper ls).
+Proof.
+  intros K Hd Hb Hs. destruct (names_val_names g ls bs K Hd Hb) as (ns & Hns & _ & E).
+  rewrite Hns, E. f_equal. apply names_val_names_sorted; [apply defs_wf|exact Hb|exact Hs].
+Qed.
+
 Theorem alias_same f a : In (f, a) aliases ->
   (forall ls, flagval m a ls = flagval m f ls) /\
   (forall v, flagname m a v = flagname m f v) /\
@@ -277,3 +286,8 @@ Proof.
   eexists. split; [reflexivity|]. cbn [length]. rewrite app_length.
   destruct fe, we; cbn [length]; destruct (dget (upper g) m); rewrite ?map_length; lia.
 Qed.
+
+(* data of the non-vacuity examples in Props.v *)
+Definition ex_rows : list row :=
+  [([84; 97; 114; 103; 101; 116], 63, [72; 105]); ([84; 65; 82; 71; 69; 84], 0, [108; 111]); ([79; 116; 104; 101; 114], 5, [120])].   (* Target 63 Hi; TARGET 0 lo; Other 5 x *)
+Definition ex_aliases : list arow := [([116; 97; 114; 103; 101; 116], [80; 114; 105; 109])].                                  (* target Prim *)
